@@ -38,11 +38,19 @@
     content after being detached from the tree, exactly as *ctree.Leaf does.
     Delete notifications are fresh detached leaves (index in [st_dels]).
 
-    Hypotheses of the C04 theorems are switches of the step function
-    ([hyps]): [h_owt] = at most one write in flight per target (implied by
-    "one writer goroutine per target"), [h_agree] = no registered query is
-    longer than a leaf path it is compatible with (then the walk relation and
-    the feed relation agree on that leaf).
+      LUnlock w     GnmiUpdate / Reset / updateMeta returns: the target's write
+                    mutex (Target.wmu, commit b865e5c) is released.  [LWrite]
+                    takes it (or goes on holding it: Reset and the metadata
+                    refresh make several tree writes under one hold), so two
+                    writers of one target never overlap between tree write and
+                    feed callback.  [step_gen false] is the variant WITHOUT the
+                    mutex (the code before b865e5c), kept for the regression
+                    witness [stream_converges_refuted].
+
+    The one hypothesis of the C04 theorems is a switch of the step function
+    ([hyps]): [h_agree] = no registered query is longer than a leaf path it is
+    compatible with (then the walk relation and the feed relation agree on
+    that leaf).  [h_ed] = event-driven emulation on.
 
     Definitions only; proofs are in StreamProofs.v. *)
 From Gnmi Require Import Base.Prelude.
@@ -132,9 +140,10 @@ Record state := mkState {
   st_tree : list (path * nat);         (* attached leaves *)
   st_feeds : list (list item);         (* per writer: written, not yet announced *)
   st_subs : list sub;
+  st_locks : list (option string);     (* per writer: the target whose write mutex it holds *)
 }.
 
-Record hyps := mkHyps { h_owt : bool; h_agree : bool; h_ed : bool (* event-driven emulation on *) }.
+Record hyps := mkHyps { h_agree : bool; h_ed : bool (* event-driven emulation on *) }.
 
 Inductive wop :=
 | WUpd (p : path) (v ts : Z)
@@ -145,7 +154,8 @@ Inductive label :=
 | LWrite (w : nat) (o : wop) | LFeed (w : nat)
 | LReg (s : nat) | LRegDone (s : nat)
 | LWalkBegin (s : nat) | LVisit (s : nat) (p : path) | LWalkEnd (s : nat) | LSync (s : nat)
-| LDeq (s : nat) | LRead (s : nat) | LSent (s : nat) | LTimeout (s : nat).
+| LDeq (s : nat) | LRead (s : nat) | LSent (s : nat) | LTimeout (s : nat)
+| LUnlock (w : nat).
 
 (** ** Helpers *)
 
@@ -203,9 +213,9 @@ Definition deliver (st : state) (it : item) (s : sub) : sub :=
   end.
 
 Definition set_subs (st : state) (ss : list sub) : state :=
-  mkState (st_leaves st) (st_dels st) (st_tree st) (st_feeds st) ss.
+  mkState (st_leaves st) (st_dels st) (st_tree st) (st_feeds st) ss (st_locks st).
 Definition set_feeds (st : state) (fs : list (list item)) : state :=
-  mkState (st_leaves st) (st_dels st) (st_tree st) fs (st_subs st).
+  mkState (st_leaves st) (st_dels st) (st_tree st) fs (st_subs st) (st_locks st).
 
 Definition with_sub (st : state) (s : nat) (f : sub -> option sub) : option state :=
   match nth_error (st_subs st) s with
@@ -233,13 +243,25 @@ Definition tree_locked (st : state) (t : string) : bool :=
 
 Definition feed_of (st : state) (w : nat) : list item := nth w (st_feeds st) [].
 
-(** another writer has a write on target [t] in flight *)
-Definition in_flight_other (st : state) (w : nat) (t : string) : bool :=
+Definition lock_of (st : state) (w : nat) : option string := nth w (st_locks st) None.
+
+(** another writer holds the write mutex of target [t] *)
+Definition held_by_other (st : state) (w : nat) (t : string) : bool :=
   existsb (fun w' => negb (Nat.eqb w' w) &&
-                     existsb (fun it => match item_target st it with
-                                        | Some t' => String.eqb t t' | None => false end)
-                             (feed_of st w'))
-          (seq 0 (List.length (st_feeds st))).
+                     match lock_of st w' with Some t' => String.eqb t t' | None => false end)
+          (seq 0 (List.length (st_locks st))).
+
+(** writer [w] may write target [t]: it holds that mutex already, or holds
+    none and nobody else holds it (then it takes it) *)
+Definition may_lock (st : state) (w : nat) (t : string) : bool :=
+  match lock_of st w with
+  | Some t' => String.eqb t t'
+  | None => negb (held_by_other st w t)
+  end.
+
+Definition set_lock (st : state) (w : nat) (l : option string) : state :=
+  mkState (st_leaves st) (st_dels st) (st_tree st) (st_feeds st) (st_subs st)
+          (upd_nth w (fun _ => l) (st_locks st)).
 
 (** every registered or future query of every subscriber agrees on [p] *)
 Definition agree_on (st : state) (p : path) : bool :=
@@ -293,14 +315,14 @@ Definition write (h : hyps) (st : state) (w : nat) (o : wop) : option (state * w
                 let leaves' := upd_nth l (fun pc => (fst pc, (v, ts))) (st_leaves st) in
                 (* event-driven emulation: same value, nothing announced *)
                 let f := if h_ed h && (v =? v0) then [] else [ILeaf l] in
-                Some (mkState leaves' (st_dels st) (st_tree st) (set_feed st w f) (st_subs st), WOk)
+                Some (mkState leaves' (st_dels st) (st_tree st) (set_feed st w f) (st_subs st) (st_locks st), WOk)
           end
       | None =>
           if conflicts st p then Some (st, WErr)
           else
             let l := List.length (st_leaves st) in
             Some (mkState (st_leaves st ++ [(p, (v, ts))]) (st_dels st)
-                          (st_tree st ++ [(p, l)]) (set_feed st w [ILeaf l]) (st_subs st), WOk)
+                          (st_tree st ++ [(p, l)]) (set_feed st w [ILeaf l]) (st_subs st) (st_locks st), WOk)
       end
   | WDel d ts order =>
       if negb (target_ok d) then None else
@@ -309,7 +331,7 @@ Definition write (h : hyps) (st : state) (w : nat) (o : wop) : option (state * w
       let k0 := List.length (st_dels st) in
       Some (mkState (st_leaves st) (st_dels st ++ map (fun pl => (fst pl, ts)) vs)
                     (remove_paths vs (st_tree st))
-                    (set_feed st w (map IDel (seq k0 (List.length vs)))) (st_subs st), WOk)
+                    (set_feed st w (map IDel (seq k0 (List.length vs)))) (st_subs st) (st_locks st), WOk)
   | WDelSub d =>
       if negb (target_ok d && star_free d) then None else
       if tree_locked st (target_of d) then None else
@@ -317,7 +339,7 @@ Definition write (h : hyps) (st : state) (w : nat) (o : wop) : option (state * w
       let k0 := List.length (st_dels st) in
       Some (mkState (st_leaves st) (st_dels st ++ [(d ++ [star], 0)])
                     (remove_paths vs (st_tree st))
-                    (set_feed st w [IDel k0]) (st_subs st), WOk)
+                    (set_feed st w [IDel k0]) (st_subs st) (st_locks st), WOk)
   end.
 
 Definition wop_target (o : wop) : string :=
@@ -340,20 +362,28 @@ Definition build (st : state) (it : item) (dup : nat) : option resp :=
 
 (** ** The step function *)
 
-Definition step (h : hyps) (st : state) (lb : label) : option state :=
+Definition step_gen (mutex : bool) (h : hyps) (st : state) (lb : label) : option state :=
   match lb with
   | LWrite w o =>
       match nth_error (st_feeds st) w with
       | Some [] =>
-          if h_owt h && in_flight_other st w (wop_target o) then None
+          if mutex then
+            if may_lock st w (wop_target o)
+            then option_map (fun sr => set_lock (fst sr) w (Some (wop_target o))) (write h st w o)
+            else None
           else option_map fst (write h st w o)
       | _ => None
+      end
+  | LUnlock w =>
+      match nth_error (st_feeds st) w, lock_of st w with
+      | Some [], Some _ => Some (set_lock st w None)
+      | _, _ => None
       end
   | LFeed w =>
       match nth_error (st_feeds st) w with
       | Some (it :: rest) =>
           Some (mkState (st_leaves st) (st_dels st) (st_tree st)
-                        (set_feed st w rest) (map (deliver st it) (st_subs st)))
+                        (set_feed st w rest) (map (deliver st it) (st_subs st)) (st_locks st))
       | _ => None
       end
   | LReg s =>
@@ -451,11 +481,16 @@ Definition step (h : hyps) (st : state) (lb : label) : option state :=
         end)
   end.
 
-Fixpoint run (h : hyps) (st : state) (sch : list label) : option state :=
+(** the code as it is: with the per-target write mutex *)
+Definition step : hyps -> state -> label -> option state := step_gen true.
+
+Fixpoint run_gen (mutex : bool) (h : hyps) (st : state) (sch : list label) : option state :=
   match sch with
   | [] => Some st
-  | lb :: sch' => match step h st lb with Some st' => run h st' sch' | None => None end
+  | lb :: sch' => match step_gen mutex h st lb with Some st' => run_gen mutex h st' sch' | None => None end
   end.
+
+Definition run : hyps -> state -> list label -> option state := run_gen true.
 
 (** ** Initial states: any number of writers, any subscriptions *)
 
@@ -463,10 +498,14 @@ Definition init_sub (qs : list path) (uo : bool) : sub :=
   mkSub qs uo (SReg 0) (if uo then [(ISync, 0%nat)] else []) None None [] [] false.
 
 Definition init (nw : nat) (subs : list (list path * bool)) : state :=
-  mkState [] [] [] (repeat [] nw) (map (fun qu => init_sub (fst qu) (snd qu)) subs).
+  mkState [] [] [] (repeat [] nw) (map (fun qu => init_sub (fst qu) (snd qu)) subs) (repeat None nw).
 
 Definition reachable (h : hyps) (nw : nat) (subs : list (list path * bool)) (st : state) : Prop :=
   exists sch, run h (init nw subs) sch = Some st.
+
+(** the variant without the mutex (before commit b865e5c) *)
+Definition reachable_unlocked (h : hyps) (nw : nat) (subs : list (list path * bool)) (st : state) : Prop :=
+  exists sch, run_gen false h (init nw subs) sch = Some st.
 
 (** ** Observation functions used by the statements *)
 
